@@ -64,6 +64,8 @@ T_Flush   == Is("Flush")   /\ IF Ev.res = "ok" /\ vopen THEN Flush /\ Keep ELSE 
 \* the compacted file is produced by the builder, which generates a (listfile)
 T_Compact == Is("Compact") /\ IF Ev.res = "ok" /\ vopen
                               THEN Compact(Ev.hsize, Ev.nspecial) /\ vhaslf' = TRUE /\ UNCHANGED <<vreset, voptok, vskip>>
+                              \* a refusal is legitimate only where the names are not all known
+                              ELSE IF Refusal(Ev.res) /\ vopen /\ ~vhaslf THEN CompactFail /\ Keep
                               ELSE Reject("compact")
 T_Close   == Is("Close")   /\ IF Ev.res = "ok" /\ vopen THEN Close /\ Keep ELSE Reject("close")
 \* a fresh Archive::open of the file after the session was closed must succeed
